@@ -10,10 +10,11 @@
   * an *overwrite* check (`Trim`, `Overwrite(f)`): `processModifiersCore` still hands the default value to the
     overwrite checks — and, since 4f7c1d7, to them only (modifiers.go:53-61; before, ALL checks ran on it:
     `legacyNilOutcome`);
-  * *refine* checks: for Optional/Nilable schemas `filterNilChecks` runs overwrite/refine/custom
-    checks on the nil value (modifiers.go:80-85); whether a refine wrapper accepts nil is fixed
-    when it is attached (string: the receiver's type was already `*string`; integer/float/bool:
-    the receiver was already Nilable — types/string.go:414, types/integer.go:447).
+  * *refine* checks: before 7db47f1, for Optional/Nilable schemas `filterNilChecks` ran overwrite/refine/custom
+    checks on the nil value; whether a refine wrapper accepts nil is fixed when it is attached (string: the
+    receiver's type was already `*string`; integer/float/bool: the receiver was already Nilable — types/string.go:414,
+    types/integer.go:447). Since 7db47f1 an accepted nil is handed to the overwrite checks only (and, for the Nil type,
+    to every nil-capable check): `legacyNilOutcome` keeps the old behaviour for the witnesses.
 -/
 namespace Gozod.Mods
 
@@ -87,18 +88,26 @@ def nilOutcome (admitsNil : Bool) (i : I) : Outcome :=
     | none, some valid => if valid then .prefaultOk true else .checkError
     | none, none =>
       if i.nonOptional then .nonOptional
-      else if i.optional || i.nilable then
-        (if i.refines.all id then .nil else .refineError)   -- filterNilChecks: refinements run on nil
+      else if i.optional || i.nilable then .nil             -- an accepted nil: no refinement runs on it (7db47f1)
       else if admitsNil then .nil
       else .typeError
 
-/-- The default branch before 4f7c1d7: with an overwrite check attached ALL checks ran on the default value, so a
-    default that does not satisfy them was an error (kept for the witness `c03_legacy_witness_default_checked`). -/
+/-- The nil pass before 4f7c1d7 / 7db47f1 (kept for the witnesses `c03_legacy_witness_*`): with an overwrite check
+    attached ALL checks ran on the default value, so a default that does not satisfy them was an error; and for
+    Optional/Nilable schemas the refinements ran on the nil value (`filterNilChecks`). -/
 def legacyNilOutcome (admitsNil : Bool) (i : I) : Outcome :=
   match i.dv, i.df with
   | some valid, _ => if i.hasOverwrite && !valid then .checkError else .dflt false
   | none, some valid => if i.hasOverwrite && !valid then .checkError else .dflt true
-  | none, none => nilOutcome admitsNil i
+  | none, none =>
+    match i.pv, i.pf with
+    | some valid, _ => if valid then .prefaultOk false else .checkError
+    | none, some valid => if valid then .prefaultOk true else .checkError
+    | none, none =>
+      if i.nonOptional then .nonOptional
+      else if i.optional || i.nilable then (if i.refines.all id then .nil else .refineError)
+      else if admitsNil then .nil
+      else .typeError
 
 /-- Does a check callback of the schema run on the nil path although a default is set? Today: the overwrite checks do
     (`if ow := overwriteChecks(internals.Checks); len(ow) > 0 { ApplyChecks(v, ow, ctx) }`, modifiers.go:56-59) — pinned by
@@ -354,8 +363,7 @@ def processModifiersCtx (c : Ctx) (s : Sch) (inp : In) : Ctx × PM :=
     | none, some valid => (c, .prefault true valid)
     | none, none =>
       if s.i.nonOptional then (c, .handled (.err .nonOptional))
-      else if s.i.optional || s.i.nilable then
-        (c, .handled (if s.i.refines.all id then .ok (.src .nil) else .err .refineError))
+      else if s.i.optional || s.i.nilable then (c, .handled (.ok (.src .nil)))
       else if s.admitsNil then (c, .handled (.ok (.src .nil)))
       else (c, .handled (.err .typeError))
 
